@@ -5,6 +5,8 @@ from hirai import OK, RET, PANIC, SOME, NONE, OKV, ERRV, some, none, unk
 
 
 class RTMod(symstr.SymStr):
+    vec_cap = 1000
+
     def __init__(self, facts):
         super().__init__(facts)
         self.tostring_impls = {}
@@ -28,6 +30,8 @@ class RTMod(symstr.SymStr):
             if tgt[0] == "ref":
                 cur = I.read(st, tgt[1])
                 if cur[0] == "abs" and cur[1] == "svec":
+                    if len(cur[2]) >= self.vec_cap:
+                        return [(OK, hirai.UNIT, st)]      # saturate: longer vectors are represented by their first elements
                     return [(OK, hirai.UNIT, I.write(st, tgt[1], ("abs", "svec", cur[2] + (args[1],))))]
             return [(OK, hirai.UNIT, st)]
         a0 = I.deref_val(st, args[0]) if args else None
